@@ -15,6 +15,7 @@ import OdlModel.Model.Deriv
 import OdlModel.Lemmas.Deriv
 import OdlModel.Lemmas.UfuncDeriv
 import OdlModel.Lemmas.DerivAnalytic
+import OdlModel.Lemmas.DerivReal
 
 open OdlModel.Deriv OdlModel.Deriv.Impl OdlModel.Deriv.Dual
 
@@ -65,6 +66,22 @@ example :
       (P.deriv x).map (fun j => (j.run d 0, j.run d 1, j.run d 2)) = some (6, 8, 3) ∧
       (Z.run x 0, Z.run x 1) = (5, 20) ∧
       (Z.deriv x).map (fun j => (j.run d 0, j.run d 1)) = some (10, 20) := by
+  decide
+
+/-- Complex scalars (the real 2×2 block `[[a, -b], [b, a]]` on `[re, im]`) and sensitivity to
+the rule of `OperatorRightScalarMult.derivative`: on `E ∘ |·|²` (`cn(1) → cn(1)`, only
+real-linear derivative) with `s = 1 + 2i`, `x = 1 + 3i`, `d = 1` the coded rule
+`OperatorRightScalarMult(op'(s x), s)` gives `(10, 0)`; the rule before fix 62d5303,
+`s · op'(s x)`, gives `(-10, -20)` — so `deriv_sound_poly` would be false for it. -/
+example :
+    let op : Impl Int := .comp (.cembed 1 1 0) (.cmodsq 1) none
+    let x : Vec Int := fun k => if k = 0 then 1 else 3
+    let d : Vec Int := fun k => if k = 0 then 1 else 0
+    let i : Impl Int := .crscal 1 op 1 2 (-2)
+    let old := (op.deriv (cmulV 1 1 2 (-2) x)).map (fun D => Impl.clscal 1 D 1 2 (-2))
+    i.wf = true ∧ i.cwf = true ∧
+      (i.deriv x).map (fun j => (j.run d 0, j.run d 1)) = some (10, 0) ∧
+      old.map (fun j => (j.run d 0, j.run d 1)) = some (-10, -20) := by
   decide
 
 /-- `derivative(x)` is a linear operator from `op.domain` to `op.range`: it exists, passes the
@@ -210,6 +227,44 @@ example : table.length = 10 ∧ (table.map (·.1)).Nodup ∧ Fn.tan.smoothAt 0 :
   refine ⟨by decide, by decide, ?_⟩
   simp [Fn.smoothAt]
 
+/-- The SECOND table, `gradient_factory` (the ufunc FUNCTIONALS `odl.ufunc_ops.<name>()` on a
+field, whose `derivative(x)` is the multiplication by `gradient(x)`), as extracted on this run:
+every branch, read point-wise over `ℝ` (`g(self.domain) * F` is the composition `g ∘ F`), is the
+derivative of the ufunc at every point of differentiability. -/
+theorem C06.ufunc_gradient_table_sound :
+    ∀ p ∈ gradTable, ∀ t : ℝ, p.1.smoothAt t → HasDerivAt p.1.real (p.2.eval p.1 t) t := by
+  intro p hp t ht
+  simp only [gradTable, List.mem_cons, List.mem_nil_iff, or_false] at hp
+  rcases hp with rfl | rfl | rfl | rfl | rfl | rfl | rfl | rfl | rfl | rfl <;>
+    simp only [Fn.real, Expr.eval, Fn.smoothAt] at ht ⊢
+  · exact Real.hasDerivAt_sin t
+  · exact Real.hasDerivAt_cos t
+  · convert Real.hasDerivAt_tan ht using 1
+    rw [Real.tan_eq_sin_div_cos]
+    field_simp
+    push_cast
+    rw [one_mul, one_mul, add_comm, Real.sin_sq_add_cos_sq]
+  · convert Real.hasDerivAt_sqrt ht.ne' using 1
+    have : Real.sqrt t ≠ 0 := (Real.sqrt_pos.mpr ht).ne'
+    field_simp
+    push_cast
+    ring
+  · have h := hasDerivAt_pow 2 t
+    have e : ((2 : ℤ) : ℝ) / ((1 : ℕ) : ℝ) * t = ((2 : ℕ) : ℝ) * t ^ (2 - 1) := by
+      push_cast; ring
+    rw [e]; exact h
+  · exact Real.hasDerivAt_log ht.ne'
+  · exact Real.hasDerivAt_exp t
+  · have h := hasDerivAt_inv (𝕜 := ℝ) ht
+    have e : ((-1 : ℤ) : ℝ) / ((1 : ℕ) : ℝ) / t ^ 2 = -(t ^ 2)⁻¹ := by
+      push_cast; field_simp
+    rw [e]; exact h
+  · exact Real.hasDerivAt_sinh t
+  · exact Real.hasDerivAt_cosh t
+
+/-- Non-vacuity: ten branches, one per ufunc of the derivative table. -/
+example : gradTable.length = 10 ∧ gradTable.map (·.1) = table.map (·.1) := by decide
+
 /-- The ufunc operators on `ℝⁿ` (all `n`): for every branch of the extracted table, the
 point-wise operator `y ↦ (f (y k))_k` has, at every `x` whose entries are points of
 differentiability, the Fréchet derivative `d ↦ (f'(x k) · d k)_k` — which is what the
@@ -240,7 +295,12 @@ end ufunc
 section analytic
 open OdlModel.DerivAnalytic OdlModel.UfuncDeriv OdlModel.Gen.UfuncDeriv
 
-/-- General (analytic) soundness of the derivative rules of `operator.py`: for expression trees
+/-- CONDITIONAL on leaf hypotheses, and about a SEPARATE TRANSCRIPTION of the rules
+(`Lemmas/DerivAnalytic.lean: Tree.deriv`), not about the executed model `Impl.deriv`; nothing
+executes it.  Its operators are endomorphisms of one algebra, so only classes with
+domain = range (PowerOperator, ufunc operators, PartialDerivative, Laplacian, matrices, …) can be
+its leaves — not Norm/Dist/ComplexModulus/PointwiseNorm/Gradient/functionals.
+Soundness of the derivative rules of `operator.py`: for expression trees
 over OPAQUE leaves on a commutative normed `ℝ`-algebra `𝔸` (`ℝⁿ` with the point-wise product,
 `ℝ`; all depths), if every leaf not flagged linear has the Fréchet derivative its class returns
 and every leaf flagged linear is a continuous linear map (`LeafOK`), then for every tree
@@ -249,7 +309,7 @@ and every leaf flagged linear is a continuous linear map (`LeafOK`), then for ev
 left(x) · right'(x)` — is the Fréchet derivative (`HasFDerivAt`) of the tree at `x`.
 The hypothesis on flagged leaves is exactly what C06-F1 violated (an affine operator flagged
 linear). -/
-theorem C06.deriv_sound {𝔸 ι : Type} [NormedCommRing 𝔸] [NormedAlgebra ℝ 𝔸]
+theorem C06.rules_sound_of_leaf_hyps {𝔸 ι : Type} [NormedCommRing 𝔸] [NormedAlgebra ℝ 𝔸]
     (L : Leaves 𝔸 ι) (h : LeafOK L) (t : Tree 𝔸 ι) (x : 𝔸) :
     HasFDerivAt (t.run L) (t.deriv L x) x :=
   Tree.deriv_sound h t x
@@ -288,10 +348,11 @@ theorem C06.ufunc_leaves_ok (n : Nat) : LeafOK (ufuncLeaves n) where
     | inl p => simp [ufuncLeaves] at hl
     | inr A => rfl
 
-/-- Hence every expression tree (any depth) mixing everywhere-smooth ufunc operators and linear
-operators on `ℝⁿ` has `derivative(x)` as its Fréchet derivative — transcendental leaves, real
-analysis, no polynomial restriction. -/
-theorem C06.deriv_sound_ufunc (n : Nat)
+/-- Hence every tree of the transcribed rule set (any depth) mixing the SIX everywhere-smooth
+ufunc operators (`sin, cos, exp, sinh, cosh, square`; not `tan, sqrt, log, reciprocal`, whose
+domain restrictions the tree theorem does not track) and linear operators on `ℝⁿ` has
+`derivative(x)` as its Fréchet derivative. -/
+theorem C06.rules_sound_smooth_ufunc_trees_of_leaf_hyps (n : Nat)
     (t : Tree (Fin n → ℝ) (SmoothEntry ⊕ ((Fin n → ℝ) →L[ℝ] (Fin n → ℝ)))) (x : Fin n → ℝ) :
     HasFDerivAt (t.run (ufuncLeaves n)) (t.deriv (ufuncLeaves n) x) x :=
   Tree.deriv_sound (C06.ufunc_leaves_ok n) t x
@@ -302,14 +363,45 @@ example : Nonempty SmoothEntry :=
   ⟨⟨(Fn.sin, Expr.app Fn.cos), by decide, fun _ => trivial⟩⟩
 
 open Filter Topology in
-/-- The statement of C06 in its own words, for every tree over leaves satisfying the leaf
-contract: the central difference quotient `(op(x + h d) - op(x - h d)) / (2h)` converges to
+/-- (Transcribed rule set, conditional on the leaf contract.)  For every tree over leaves
+satisfying the leaf contract: the central difference quotient `(op(x + h d) - op(x - h d)) / (2h)` converges to
 `op.derivative(x)(d)` as `h → 0`, for every base point and direction.  (The `O(h²)` RATE is
 proved in the polynomial world only: `central_diff_poly_partial`.) -/
-theorem C06.central_diff_tendsto {𝔸 ι : Type} [NormedCommRing 𝔸] [NormedAlgebra ℝ 𝔸]
+theorem C06.central_diff_tendsto_of_leaf_hyps {𝔸 ι : Type} [NormedCommRing 𝔸] [NormedAlgebra ℝ 𝔸]
     (L : Leaves 𝔸 ι) (h : LeafOK L) (t : Tree 𝔸 ι) (x d : 𝔸) :
     Tendsto (fun s : ℝ => (2 * s)⁻¹ • (t.run L (x + s • d) - t.run L (x - s • d)))
       (𝓝[≠] 0) (𝓝 (t.deriv L x d)) :=
   central_diff_tendsto_of_hasFDerivAt (t.run L) (t.deriv L x) x d (Tree.deriv_sound h t x)
+
+open Filter Topology in
+/-- THE EXECUTED MODEL over `ℝ` and real analysis (no leaf hypotheses): for every well-formed tree
+of `Impl ℝ` — all expression classes, block operators, polynomial and complex leaves — every base
+point `x`, direction `d` and output index `k`, the real function `s ↦ op(x + s d)_k` is
+differentiable at `0` with derivative `op.derivative(x)(d)_k`.  Together with
+`deriv_is_linear` (the derivative is a linear map of `d`) this is the Gâteaux form of "is the
+Fréchet derivative"; for the polynomial maps of the model the two coincide, but the Fréchet
+statement itself (`HasFDerivAt` on `ℝⁿ`) is not formalised. -/
+theorem C06.model_line_hasDerivAt [DecidableEq ℝ] (i : Impl ℝ) (hwf : i.wf = true) (x d : Vec ℝ) :
+    ∃ j, i.deriv x = some j ∧ ∀ k,
+      HasDerivAt (fun s : ℝ => i.run (fun m => x m + s * d m) k) (j.run d k) 0 := by
+  obtain ⟨j, e, _⟩ := deriv_type i x hwf
+  exact ⟨j, e, fun k => impl_hasDerivAt_line i hwf x d j e k⟩
+
+/-- Non-vacuity of the two theorems about `Impl ℝ`: a nonlinear chain-rule tree is well formed. -/
+example : (Impl.comp (.power 2 3) (.sum (.power 2 2) (.identity 2) none none) none : Impl ℝ).wf = true := by
+  decide
+
+open Filter Topology in
+/-- The statement of C06 in its own words, for the executed model over `ℝ`: the central
+difference quotient `(op(x + h d) - op(x - h d)) / (2h)` converges entry-wise to
+`op.derivative(x)(d)` as `h → 0` (rate: `central_diff_poly_partial`). -/
+theorem C06.model_central_diff_tendsto [DecidableEq ℝ] (i : Impl ℝ) (hwf : i.wf = true)
+    (x d : Vec ℝ) :
+    ∃ j, i.deriv x = some j ∧ ∀ k,
+      Tendsto (fun h : ℝ => (2 * h)⁻¹ • (i.run (fun m => x m + h * d m) k
+          - i.run (fun m => x m + (-h) * d m) k)) (𝓝[≠] 0) (𝓝 (j.run d k)) := by
+  obtain ⟨j, e, hk⟩ := C06.model_line_hasDerivAt i hwf x d
+  exact ⟨j, e, fun k => central_diff_tendsto_of_hasDerivAt
+    (fun s : ℝ => i.run (fun m => x m + s * d m) k) (j.run d k) (hk k)⟩
 
 end analytic
